@@ -722,6 +722,22 @@ class AgreementMonitor(Monitor):
         self.tick_seen = {}     # (observer nick, inc, peer nick) -> (incarnation of the peer, counter of its last TICK)
         self.undetectable = set()   # (observer nick, inc, peer nick): a restart whose first TICK counter was not lower
         w.on_hook('ctx_tick', self.on_tick_received)
+        w.on_hook('send_process_added_event', self.on_process_added)
+
+    def on_process_added(self, src, process_info):
+        # same handshake window for the PROCESS_ADDED publications (numprocs increased, group added again): a peer
+        # that the source does not see active does not receive it, and will ignore every later event of that process
+        w = self.run.world
+        namespec = f"{process_info['group']}:{process_info['name']}"
+        view = self.peer_view.get((src.nick, src.inc), {})
+        for inst in w.live():
+            if inst.nick != src.nick and view.get(inst.identifier, 'STOPPED') not in self.ACTIVE:
+                self.unpublished.setdefault((inst.nick, src.nick), set()).add(namespec)
+                self.count('process_added_not_published')
+            elif (inst.nick, src.nick) in self.snapshot_taken and \
+                    self.peer_view.get((inst.nick, inst.inc), {}).get(src.identifier) == 'CHECKING':
+                self.unpublished.setdefault((inst.nick, src.nick), set()).add(namespec)
+                self.count('process_added_not_published')
 
     def on_forced(self, inst, process, identifier, event_time, forced_state, reason):
         # a state forced by an instance that does not see (all) the Supervisors where the process truly runs
